@@ -14,6 +14,7 @@ import (
 	"github.com/enfein/mieru/v3/apis/model"
 	"github.com/enfein/mieru/v3/pkg/appctl/appctlpb"
 	"github.com/enfein/mieru/v3/pkg/common"
+	"github.com/enfein/mieru/v3/pkg/egress"
 	"github.com/enfein/mieru/v3/pkg/log"
 	"github.com/enfein/mieru/v3/pkg/stderror"
 )
@@ -158,7 +159,22 @@ func (s *Server) handleAssociatePacketOverStream(ctx context.Context, _ *model.R
 		return fmt.Errorf("failed to send reply: %w", err)
 	}
 
-	return RunUDPAssociateLoop(udpConn, apicommon.NewPacketOverStreamTunnel(proxyConn), s.config.Resolver)
+	// The destination of every packet is checked in the same way as the
+	// destination of a request: private and loopback IP addresses need
+	// the permission of the user.
+	egressInput := egress.Input{
+		Protocol: appctlpb.ProxyProtocol_SOCKS5_PROXY_PROTOCOL,
+	}
+	if userCtx, ok := proxyConn.(apicommon.UserContext); ok && userCtx.UserName() != "" {
+		egressInput.Env = map[string]string{
+			"user": userCtx.UserName(),
+		}
+	}
+	allow := func(dst model.AddrSpec) bool {
+		action := s.rejectPrivateAndLoopbackIPAction(ctx, egressInput, &model.Request{DstAddr: dst})
+		return action.Action != appctlpb.EgressAction_REJECT
+	}
+	return runUDPAssociateLoop(udpConn, apicommon.NewPacketOverStreamTunnel(proxyConn), s.config.Resolver, allow)
 }
 
 func (s *Server) handleAssociateDatagram(ctx context.Context, _ *model.Request, proxyConn net.Conn) error {
